@@ -1,9 +1,10 @@
 (** C15: the arm tables of the integer operators, REGENERATED from the Rust source on every run
-    (tools/translate_c15_r3.py -> DashuGen.FormsArms: the four ownership impls of Mul, DivRem, Div,
-    Rem, Gcd, ExtendedGcd on TypedRepr / TypedReprRef in mul_ops.rs / div_ops.rs / gcd_ops.rs, and
+    (tools/translate_c15_r3.py -> DashuGen.FormsArms: the four ownership impls of Add, Sub, Mul,
+    DivRem, Div, Rem, Gcd, ExtendedGcd on TypedRepr / TypedReprRef in add_ops.rs / mul_ops.rs /
+    div_ops.rs / gcd_ops.rs, and
     the table of primitive-operand forms from the macro invocations of add_ops.rs / mul_ops.rs /
     div_ops.rs / bits.rs), proved equal to the hand-written as-is models the other theorems of C15
-    are about (Forms/FormsMul.v repr_mul_form, Forms/FormsDiv.v repr_div_rem_form / repr_div_form /
+    are about (Int/RingOps.v repr_add / repr_sub, Forms/FormsMul.v repr_mul_form, Forms/FormsDiv.v repr_div_rem_form / repr_div_form /
     repr_rem_form, Forms/FormsGcd.v repr_gcd_form, Forms/FormsSpec.v out_ty).  An edit of an arm in
     the source (another kernel, exchanged operands, another length test, a dropped clone_from_slice,
     another Output type) changes the generated definition and breaks a proof obligation here.
@@ -15,6 +16,25 @@ From DashuGen Require Import Params FormsArms.
 Open Scope Z_scope.
 
 (** ------------------------------------------------------------------ over the generated code, any kernels *)
+(** + : `T + &T` runs the arms of `&T + T` on the exchanged operands; T + T and &T + &T keep the longer
+    operand's buffer, &T + T always the owned one - for a commutative add_large all four agree *)
+Theorem gen_add_arms_same : forall K, (forall a b, k_add_dword K a b = k_add_dword K b a) ->
+  (forall a b, k_add_large K a b = k_add_large K b a) ->
+  forall o x y, gen_add K o x y = gen_add K OVV x y.
+Proof.
+  intros K HD HC o x y. destruct o, x as [d0|b0], y as [d1|b1]; try reflexivity;
+    cbn [gen_add gen_add_OVV gen_add_OVR gen_add_ORV gen_add_ORR]; try apply HD;
+    destruct (length b1 <=? length b0)%nat; try reflexivity; apply HC.
+Qed.
+
+(** - : only `&T - T` differs (sub_large_ref_val writes into the subtrahend's buffer) *)
+Theorem gen_sub_arms_same : forall K, (forall a b, k_sub_large_ref_val K a b = k_sub_large K a b) ->
+  forall o x y, gen_sub K o x y = gen_sub K OVV x y.
+Proof.
+  intros K HC o x y. destruct o, x as [d0|b0], y as [d1|b1]; try reflexivity.
+  cbn [gen_sub gen_sub_OVV gen_sub_ORV]. apply HC.
+Qed.
+
 Theorem gen_mul_arms_same : forall K x y,
   gen_mul K ORV x y = gen_mul K OVV x y /\ gen_mul K ORR x y = gen_mul K OVV x y /\
   gen_mul K OVR x y = gen_mul K OVV y x.
@@ -52,6 +72,14 @@ Definition model_kernels : arm_kernels := {|
   k_from_buffer := from_buffer w;
   k_clone_from_slice := clone_from_slice;
   k_dword_gcd := k_dg;
+  k_add_dword := fun a b => Ok (add_dword w a b);
+  k_add_large_dword := fun buf d => Ok (add_large_dword w buf d);
+  k_add_large := fun a b => Ok (add_large w a b);
+  k_sub_dword := sub_dword;
+  k_sub_large_dword := sub_large_dword w;
+  k_sub_large := sub_large w;
+  k_sub_large_ref_val := sub_large_ref_val w;
+  k_panic_negative_ubig := Panic NegativeUBig;
   k_mul_dword := fun a b => Ok (mul_dword w a b);
   k_mul_large_dword := fun buf d => Ok (mul_large_dword w buf d);
   k_mul_large := mul_large w src_T_simple src_T_kara src_CHUNK forms_SQR;
@@ -70,6 +98,21 @@ Definition model_kernels : arm_kernels := {|
   k_gcd_ext_large_dword := k_xld;
   k_gcd_ext_large := k_xl |}.
 Notation MK := model_kernels.
+
+(** ( `T + &T` of two inline values calls add_dword(rhs, self): the model writes add_dword self rhs ) *)
+Lemma add_dword_comm a b : add_dword w a b = add_dword w b a.
+Proof. unfold add_dword. rewrite (Z.add_comm b a). reflexivity. Qed.
+
+Theorem gen_add_model : forall o x y, gen_add MK o x y = Ok (repr_add w o x y).
+Proof.
+  intros o x y. destruct o, x as [d0|b0], y as [d1|b1]; try reflexivity;
+    cbn [gen_add gen_add_OVV gen_add_OVR gen_add_ORV gen_add_ORR repr_add model_kernels k_add_dword];
+    try (rewrite add_dword_comm; reflexivity);
+    destruct (length b1 <=? length b0)%nat; reflexivity.
+Qed.
+
+Theorem gen_sub_model : forall o x y, gen_sub MK o x y = repr_sub w o x y.
+Proof. intros o x y. destruct o, x, y; reflexivity. Qed.
 
 Theorem gen_mul_model : forall o x y, gen_mul MK o x y = repr_mul_form w o x y.
 Proof. intros o x y. destruct o, x, y; reflexivity. Qed.
